@@ -126,12 +126,13 @@ VARIANTS = [
 ]
 
 
-def run_batch(binary, lines, variant, dump=None, timeout=900):
+def run_batch(binary, lines, variant, dump=None, timeout=900, dump_only=None):
     """returns (records, crashed_key). records: key -> list of dict(pass=…, fields…) and 'ckpt' -> (count, state)"""
     name, argv0, env_extra, premalloc, wrapper = variant
     env = dict(os.environ)
     env.update(env_extra)
-    args = ['batch', '--pre-malloc', str(premalloc)] + (['--dump', dump] if dump else [])
+    args = ['batch', '--pre-malloc', str(premalloc)] + (['--dump', dump] if dump else []) + \
+        (['--dump-only', dump_only] if dump_only else [])
     if wrapper and shutil.which(wrapper[0]):
         cmd = wrapper + [binary] + args
         exe = None
@@ -191,27 +192,55 @@ def digest_tuple(d):
     return tuple(d.get(f) for f in DIGEST_FIELDS)
 
 
-def first_difference(binary, line_a, variant_a, pass_a, line_b, variant_b, pass_b):
-    """re-run with full trace dumps and return a description of the first differing line"""
+def first_difference(binary, history_a, key_a, variant_a, pass_a, history_b, key_b, variant_b, pass_b, values=False):
+    """re-run both batches (a configuration's predecessors in the process are part of its history) with a full trace
+    dump of the one configuration; returns (description, line_a, line_b) of the first differing line"""
     d = os.path.join(workdir(), 'dump')
     shutil.rmtree(d, ignore_errors=True)
     os.makedirs(os.path.join(d, 'a'))
     os.makedirs(os.path.join(d, 'b'))
-    run_batch(binary, [line_a], variant_a, dump=os.path.join(d, 'a'))
-    run_batch(binary, [line_b], variant_b, dump=os.path.join(d, 'b'))
-    ka, kb = line_a.split()[1], line_b.split()[1]
+    if values:
+        os.environ['C17_DEBUG_VALUES'] = '1'
     try:
-        ta = open(os.path.join(d, 'a', '%s.%d.txt' % (ka, pass_a))).read().split('\n')
-        tb = open(os.path.join(d, 'b', '%s.%d.txt' % (kb, pass_b))).read().split('\n')
+        run_batch(binary, history_a, variant_a, dump=os.path.join(d, 'a'), dump_only=key_a)
+        run_batch(binary, history_b, variant_b, dump=os.path.join(d, 'b'), dump_only=key_b)
+    finally:
+        os.environ.pop('C17_DEBUG_VALUES', None)
+    try:
+        ta = [l for l in open(os.path.join(d, 'a', '%s.%d.txt' % (key_a, pass_a))).read().split('\n')]
+        tb = [l for l in open(os.path.join(d, 'b', '%s.%d.txt' % (key_b, pass_b))).read().split('\n')]
     except OSError as e:
-        return 'no trace dump (%s)' % e
-    for i, (x, y) in enumerate(zip(ta, tb)):
+        return 'no trace dump (%s)' % e, None, None
+    va = [l for l in ta if not l.startswith('#')]
+    vb = [l for l in tb if not l.startswith('#')]
+    for i, (x, y) in enumerate(zip(va, vb)):
         if x != y:
-            ctx = ta[max(0, i - 3):i]
-            return 'first differing trace line %d: `%s` vs `%s` (after: %s)' % (i + 1, x, y, ' | '.join(ctx))
-    if len(ta) != len(tb):
-        return 'one trace is a strict prefix of the other (%d vs %d lines)' % (len(ta), len(tb))
-    return 'full traces agree; the difference is in the counters / result only'
+            ctx = va[max(0, i - 3):i]
+            extra = ''
+            if values:
+                ia = ta.index(x, 0) if x in ta else -1
+                # the raw words printed after the differing line in each dump
+                def words(t, n):
+                    seen = -1
+                    for j, l in enumerate(t):
+                        if not l.startswith('#'):
+                            seen += 1
+                            if seen == n:
+                                return t[j + 1] if j + 1 < len(t) and t[j + 1].startswith('#') else ''
+                    return ''
+                extra = ' raw: [%s] vs [%s]' % (words(ta, i).strip('# '), words(tb, i).strip('# '))
+            return 'first differing trace line %d: `%s` vs `%s` (after: %s)%s' % (i + 1, x, y, ' | '.join(ctx), extra), x, y
+    if len(va) != len(vb):
+        return 'one trace is a strict prefix of the other (%d vs %d lines)' % (len(va), len(vb)), None, None
+    return 'full traces agree; the difference is in the counters / result only', None, None
+
+
+def is_cas_outcome_only(x, y):
+    """two trace lines `A <fiber> <op> <orders> <ok>` of a CAS that differ in the outcome only"""
+    if x is None or y is None:
+        return False
+    a, b = x.split(), y.split()
+    return len(a) == 5 and len(b) == 5 and a[0] == b[0] == 'A' and a[:4] == b[:4] and a[2] in ('3', '4') and a[4] != b[4]
 
 
 def gen_configs(rng, tier):
@@ -251,15 +280,56 @@ def gen_restore(rng, tier):
     return lines
 
 
+def compare_sched(impl, model):
+    """scheduler script: implementation observations vs model observations.  `ub` in the model = the C++ code has
+    undefined behaviour there: either the implementation crashed at that point (`crash`), or it went on (the end()
+    dereference of D8 is benign in release builds) and the model's defined continuation must still match.
+    returns (ok, kind) with kind in ok | ub-benign | ub-crash | mismatch:<detail>"""
+    try:
+        io, iu = impl.split(' = ')[1].rsplit(' used=', 1)
+        mo, mu = model.split(' = ')[1].rsplit(' used=', 1)
+    except (IndexError, ValueError):
+        return False, 'mismatch:unparsable `%s` / `%s`' % (impl[-120:], model[-120:])
+    I, M = io.split(','), mo.split(',')
+    i = j = 0
+    benign = 0
+    while j < len(M):
+        if M[j] == 'ub':
+            if i < len(I) and I[i] == 'crash':
+                return True, 'ub-crash'
+            benign += 1
+            j += 1
+            continue
+        if i >= len(I) or I[i] != M[j]:
+            return False, 'mismatch:observation %d is `%s` in the implementation and `%s` in the model (script %s)' % (
+                i, I[i] if i < len(I) else 'END', M[j], impl.split('script=')[1].split(' = ')[0][:200])
+        i += 1
+        j += 1
+    if i != len(I):
+        return False, 'mismatch:the implementation observed more (%s …) than the model (script %s)' % (
+            ','.join(I[i:i + 4]), impl.split('script=')[1].split(' = ')[0][:200])
+    if iu != '?' and iu != mu:
+        return False, 'mismatch:draws used %s vs %s' % (iu, mu)
+    return True, 'ub-benign' if benign else 'ok'
+
+
 def model_differential(binary, tier):
     """(d): decision functions + scheduler scripts, implementation vs Lean model on the recorded raw draws"""
     drv = os.path.join(C.LEAN, '.lake/build/bin/ymdriver_fibersched')
     r = subprocess.run([binary, 'pure', '--seed', str(C.seed())], capture_output=True, text=True, timeout=600)
     impl = [l for l in r.stdout.split('\n') if l]
-    stats = {'GE': 0, 'POLL': 0, 'NI': 0, 'FW': 0, 'FWD': 0, 'SCHED': 0}
+    stats = {'GE': 0, 'POLL': 0, 'NI': 0, 'FW': 0, 'FWD': 0, 'SCHED': 0, 'SCHED_requests': 0, 'SCHED_ub_benign_D8': 0,
+             'SCHED_ub_crash_D12': 0}
     problems = []
     if not impl or impl[-1] != 'done':
         return stats, ['harness `pure` mode did not finish (exit %d): %s' % (r.returncode, r.stderr[-300:])], 0
+    r2 = subprocess.run([binary, 'sched', '--seed', str(C.seed()), '--count', '400' if tier == 'quick' else '6000'],
+                        capture_output=True, text=True, timeout=1800)
+    simpl = [l for l in r2.stdout.split('\n') if l]
+    if not simpl or simpl[-1] != 'done':
+        problems.append('harness `sched` mode did not finish (exit %d): %s' % (r2.returncode, r2.stderr[-300:]))
+        simpl = []
+    impl = impl[:-1] + simpl
     for l in impl:
         k = l.split()[0]
         if k in stats:
@@ -270,16 +340,31 @@ def model_differential(binary, tier):
                 problems.append('ForwardToFaultRandomCount does not reproduce the engine state: ' + l)
     if not os.path.exists(drv):
         return stats, problems + ['ymdriver_fibersched is not built: the extracted functions were not validated against the implementation'], 0
-    m = subprocess.run([drv], input='\n'.join(impl) + '\n', capture_output=True, text=True, timeout=600)
+    m = subprocess.run([drv], input='\n'.join(impl) + '\n', capture_output=True, text=True, timeout=1800)
     model = [l for l in m.stdout.split('\n') if l]
     if len(model) != len(impl):
         problems.append('model driver answered %d lines for %d inputs (%s)' % (len(model), len(impl), m.stderr[-200:]))
     validated = 0
+    samples = []
     for a, b in zip(impl, model):
-        if a == b:
+        if a.startswith('SCHED '):
+            good, kind = compare_sched(a, b)
+            if good:
+                validated += 1
+                stats['SCHED_requests'] += a.split('script=')[1].split(' = ')[0].count(';') + 1
+                if kind == 'ub-benign':
+                    stats['SCHED_ub_benign_D8'] += 1
+                elif kind == 'ub-crash':
+                    stats['SCHED_ub_crash_D12'] += 1
+                if len(samples) < 2 and kind == 'ok':
+                    samples.append(re.sub(r'raws=\S+', 'raws=…', a)[:400])
+            elif len(problems) < 5:
+                problems.append('scheduler model vs implementation: ' + kind[9:] + ' [' + a.split(' raws=')[0] + ']')
+        elif a == b:
             validated += 1
         elif len(problems) < 5:
             problems.append('implementation `%s` vs model `%s`' % (a[:300], b[:300]))
+    stats['samples'] = samples
     return stats, problems, validated
 
 
@@ -345,9 +430,11 @@ def run(res, tier):
         which = 'same process, pass %d vs pass %d' % (a[2], b[2]) if a[1][0] == b[1][0] else \
             'process `%s` pass %d vs process `%s` pass %d' % (a[1][0], a[2], b[1][0], b[2])
         fields = [f for f, x, y in zip(DIGEST_FIELDS, a[0], b[0]) if x != y]
-        why = first_difference(binary, line, a[1], a[2], line, b[1], b[2])
-        res.violation('%s\n# comparison: %s\n# differing digest fields: %s\n# %s\n# variants: %s | %s' % (
-            line, which, ', '.join(fields), why, a[1][0], b[1][0]),
+        hist = lines[:lines.index(line) + 1]
+        why, _, _ = first_difference(binary, hist, key, a[1], a[2], hist, key, b[1], b[2])
+        res.violation('%s\n# comparison: %s\n# differing digest fields: %s\n# %s\n# variants: %s | %s\n'
+                      '# history: the %d configurations generated before this one by gen_configs(PRNG(VERIF_SEED), tier) ran in the same process' % (
+            line, which, ', '.join(fields), why, a[1][0], b[1][0], len(hist) - 1),
             'two runs of the same (program, seed, configuration) differ (%s): %s' % (which, why),
             name='C17_%s_rerun_%d.txt' % (tier, reported))
         reported += 1
@@ -404,7 +491,8 @@ def run(res, tier):
             rmism.append((key, l, a, b[0]))
     for (key, l, a, b) in rmism[:3]:
         rec_line = next(x for x in rlines if x.split()[1] == key)
-        why = first_difference(binary, rec_line, VARIANTS[0], 0, l, VARIANTS[1], 1)
+        why, _, _ = first_difference(binary, rlines[:rlines.index(rec_line) + 1], key, VARIANTS[0], 0,
+                                     rep_lines[:rep_lines.index(l) + 1], key, VARIANTS[1], 1)
         fields = [f for f in DIGEST_FIELDS if a.get(f) != b.get(f)]
         res.violation('%s\n%s\n# comparison: continuation after the checkpoint (process A) vs continuation after restore (process B)\n'
                       '# differing digest fields: %s\n# %s' % (rec_line, l, ', '.join(fields), why),
@@ -416,6 +504,54 @@ def run(res, tier):
                       name='C17_%s_restore_crash.txt' % tier)
     neg_diff = len([k for k in neg if len(neg[k]['digests']) == 1 and
                     digest_tuple(neg[k]['digests'][0]) != digest_tuple(rec[k[:-2]]['digests'][0])])
+
+    # ---- the same comparison WITHOUT the address quarantine: what the allocator contributes (see notes/C17.md, F1).
+    #      A difference whose first symptom is the outcome of a CAS after identical operation histories can only come
+    #      from the compared word, i.e. from an address handed out again (ABA): known finding.  Anything else: violation.
+    raw_rng = random.Random(C.seed() * 7 + 5)
+    raw_lines, raw_meta = gen_configs(raw_rng, 'thorough' if tier == 'quick' else 'thorough')
+    raw_lines = [l + ' quarantine=0' for l in raw_lines][: (4000 if tier == 'quick' else len(raw_lines))]
+    raw = {}
+    for v in (VARIANTS[0], VARIANTS[1], VARIANTS[2]):
+        raw[v[0]], _ = run_all(binary, raw_lines, v)
+    raw_runs = 0
+    raw_diff = []
+    for l in raw_lines:
+        key = l.split()[1]
+        ref = None
+        for v in (VARIANTS[0], VARIANTS[1], VARIANTS[2]):
+            for d in raw[v[0]].get(key, {'digests': []})['digests']:
+                raw_runs += 1
+                t = digest_tuple(d)
+                if ref is None:
+                    ref = (t, v, int(d['pass']))
+                elif t != ref[0] and key not in [x[0] for x in raw_diff]:
+                    raw_diff.append((key, l, ref, (t, v, int(d['pass']))))
+    aba = 0
+    cas_first = 0
+    for (key, l, a, b) in raw_diff[:4]:
+        hist = raw_lines[:raw_lines.index(l) + 1]
+        why, x, y = first_difference(binary, hist, key, a[1], a[2], hist, key, b[1], b[2], values=True)
+        # decisive test: the same history with the quarantine on (no address is handed out twice within a run)
+        qhist = [h.replace(' quarantine=0', ' quarantine=1') for h in hist]
+        qa, _ = run_all(binary, qhist, a[1])
+        qb, _ = run_all(binary, qhist, b[1])
+        qt = {digest_tuple(d) for q in (qa, qb) for d in q.get(key, {'digests': []})['digests']}
+        if is_cas_outcome_only(x, y):
+            cas_first += 1
+        if len(qt) == 1:
+            aba += 1
+            if aba == 1:
+                res.known_finding('without the harness\'s address quarantine %d of %d configurations do not reproduce (in-process re-run or '
+                                  'other heap layout) and do reproduce with it: a stale compare_exchange on a pointer-valued word succeeds '
+                                  'iff the allocator handed the address out again (ABA by address reuse, e.g. yaclib::Strand::Submit); the '
+                                  'fault layer decides identically. Example: `%s` after %d earlier configurations in the process, %s'
+                                  % (len(raw_diff), len(raw_lines), l, len(hist) - 1, why[:400]))
+        else:
+            res.violation('%s\n# history: the %d configurations before it (gen_configs(PRNG(VERIF_SEED*7+5), thorough)), with and without '
+                          'address quarantine\n# %s' % (l, len(hist) - 1, why),
+                          'two runs differ even when no address is reused within a run: ' + why,
+                          name='C17_%s_raw_%s.txt' % (tier, key))
 
     # ---- (d) the extracted functions / the model against the implementation
     mstats, mproblems, validated = model_differential(binary, tier)
@@ -446,6 +582,8 @@ def run(res, tier):
         'distribution': dict(dist, configurations=len(meta), runs_compared=runs, process_variants=[v[0] for v in variants],
                              restore_pairs=restored, restore_negative_controls='%d/%d differ when the count is off by one' % (neg_diff, len(neg)),
                              reset_between_inprocess_runs=reset_needed, model_differential=mstats,
+                             without_address_quarantine=dict(configurations=len(raw_lines), runs=raw_runs, differing=len(raw_diff),
+                                                             reproduce_with_quarantine=aba, first_difference_is_a_cas_outcome=cas_first),
                              lint_selftest_kinds=kinds),
         'compared': DIGEST_FIELDS,
         'broken_obligations': broken,
